@@ -251,6 +251,10 @@ def _big_stack():
         pass
 
 
+SHARD_TIMEOUT = 240     # seconds for one shard of cases (normally well under 30 s)
+CASE_TIMEOUT = 20       # seconds for a single case when looking for a hanging one
+
+
 def run_lines(exe, lines, shards=NPROC, timeout=3000, env=None):
     """Feed case lines to exe (one result line per case), sharded over processes."""
     if not lines:
@@ -259,8 +263,21 @@ def run_lines(exe, lines, shards=NPROC, timeout=3000, env=None):
     chunks = [lines[i::shards] for i in range(shards)]
 
     def work(chunk):
-        p = subprocess.run([exe], input="\n".join(chunk) + "\n", stdout=subprocess.PIPE, stderr=subprocess.PIPE,
-                           text=True, timeout=timeout, env=env or ENV, preexec_fn=_big_stack)
+        try:
+            p = subprocess.run([exe], input="\n".join(chunk) + "\n", stdout=subprocess.PIPE, stderr=subprocess.PIPE,
+                               text=True, timeout=SHARD_TIMEOUT, env=env or ENV, preexec_fn=_big_stack)
+        except subprocess.TimeoutExpired:
+            # some call never returned (a hang is a C05 violation in its own right): find the case(s), one process each
+            res = []
+            for c in chunk:
+                try:
+                    q = subprocess.run([exe], input=c + "\n", stdout=subprocess.PIPE, stderr=subprocess.PIPE, text=True,
+                                       timeout=CASE_TIMEOUT, env=env or ENV, preexec_fn=_big_stack)
+                    o = q.stdout.strip("\n")
+                    res.append(o if (q.returncode == 0 and o != "" and "\n" not in o) else "CRASH rc=%s" % q.returncode)
+                except subprocess.TimeoutExpired:
+                    res.append("HANG (no result within %ds)" % CASE_TIMEOUT)
+            return res
         out = p.stdout.split("\n")
         if out and out[-1] == "":
             out.pop()
